@@ -3,12 +3,15 @@
 \* A pipeline is [src, k, chain, j]: src = sequence of item ids; k = position of the source
 \* fault (0 = none; the k-th pull fails instead of yielding src[k]); chain = sequence of adapter
 \* names; j = number of the delivery on which the sink fails (0 = never).
-EXTENDS Naturals, Sequences, FiniteSets, TLC
+EXTENDS Integers, Sequences, FiniteSets, TLC
 None == [none |-> TRUE]
 Some(x) == [none |-> FALSE, v |-> x]
-Apply1(a, x) == CASE a = "map"    -> Some(x + 10)
+\* "mapi" / "fmapi" are map_items / filter_map_items driven through their IntoIterator form (same meaning);
+\* "toq" / "tot" are the to_quads / to_triples converters (identity on the item id)
+Apply1(a, x) == CASE a \in {"map", "mapi"}    -> Some(x + 10)
                   [] a = "filter" -> IF x % 2 = 0 THEN Some(x) ELSE None
-                  [] a = "fmap"   -> IF x % 3 = 0 THEN None ELSE Some(x * 2)
+                  [] a \in {"fmap", "fmapi"}   -> IF x % 3 = 0 THEN None ELSE Some(x * 2)
+                  [] a \in {"toq", "tot", "toqt"} -> Some(x)
 RECURSIVE ApplyChain(_, _, _)
 ApplyChain(chain, i, ox) == IF i > Len(chain) \/ ox.none THEN ox ELSE ApplyChain(chain, i + 1, Apply1(chain[i], ox.v))
 \* state machine: one step = one try_for_some_item
@@ -47,7 +50,7 @@ StopInv == /\ (result = "sink" => Len(delivered) = J)
            /\ (result = "ok" => K = 0 /\ delivered = Filtered(Src, Len(Src), Chain))
 \* closed form used by the trace spec
 RECURSIVE Run(_, _, _, _, _)
-Run(pl, p, d, st, r) == IF r # "running" THEN [delivered |-> d, steps |-> st, result |-> r]
+Run(pl, p, d, st, r) == IF r # "running" THEN [delivered |-> d, steps |-> st, result |-> r, pos |-> p]
   ELSE IF p >= Len(pl.src) /\ ~(pl.k = Len(pl.src) + 1) THEN Run(pl, p, d, Append(st, FALSE), "ok")
   ELSE IF pl.k = p + 1 THEN Run(pl, p + 1, d, st, "source")
   ELSE LET y == ApplyChain(pl.chain, 1, Some(pl.src[p + 1])) IN
@@ -57,5 +60,12 @@ Run(pl, p, d, st, r) == IF r # "running" THEN [delivered |-> d, steps |-> st, re
 \* the state machine and the closed form agree (checked in MC): at the end of a behaviour
 AgreeInv == result # "running" =>
    LET r == Run([src |-> Src, k |-> K, chain |-> Chain, j |-> J], 0, <<>>, <<>>, "running") IN
-   r.delivered = delivered /\ r.steps = steps /\ r.result = result
+   r.delivered = delivered /\ r.steps = steps /\ r.result = result /\ r.pos = pos
+\* a store sink with a term index of limited capacity fails on the delivery that needs one term too many:
+\* every distinct item value costs one new term; `room` values fit
+RECURSIVE StoreJFrom(_, _, _, _)
+StoreJFrom(d, i, seen, room) == IF i > Len(d) THEN 0
+                                ELSE IF d[i] \notin seen /\ Cardinality(seen) >= room THEN i
+                                ELSE StoreJFrom(d, i + 1, seen \cup {d[i]}, room)
+StoreJ(pl, room) == StoreJFrom(Filtered(pl.src, IF pl.k = 0 THEN Len(pl.src) ELSE pl.k - 1, pl.chain), 1, {}, room)
 ====
